@@ -1179,9 +1179,8 @@ fn expand_state<const N: usize>(
             None => {
                 if !clone_reported {
                     clone_reported = true;
-                    if let Some(f) = clone_exactness_finding(g0) {
-                        out.findings.push((idx, None, f));
-                    }
+                    // a diagnostic, not a verdict: C10 is judged behaviourally by the clone probe
+                    bump(&mut out.counters, "diagnostic_states_whose_clone_has_a_different_snapshot");
                 }
                 match replay_both::<N>(cfg, &history_of(hist_ctx.0, hist_ctx.1, hist_ctx.2, idx)) {
                     Ok((g, _)) => g,
